@@ -114,7 +114,7 @@ Definition first_pass (fuel : nat) (fs : fsys) (source : bool) (acc : list path 
   | KNone => (fst acc, snd acc ++ [DNotFound p])
   | KFile => if is_slice_file p then (fst acc ++ [p], snd acc) else (fst acc, snd acc ++ [DNotSlice p])
   | KDir => if source then (fst acc, snd acc ++ [DDirAsSource p])
-            else let r := walk fuel fs p in (fst acc ++ fst r, snd acc ++ snd r)
+            else let r := walk fuel [] fs p in (fst acc ++ fst r, snd acc ++ snd r)
   end.
 Definition listed_defect (fs : fsys) (source : bool) (p : path) : option fdiag :=
   match kind_of fs p with
@@ -136,7 +136,7 @@ Proof.
       * exists found, (DNotSlice p :: ds). rewrite <- app_assoc. split; [reflexivity|]. intros q d [<-|Hq] Hd; [rewrite K, S in Hd; inversion Hd; left; reflexivity|right; eapply H; eauto].
     + destruct source; cbn [fst snd] in *.
       * exists found, (DDirAsSource p :: ds). rewrite <- app_assoc. split; [reflexivity|]. intros q d [<-|Hq] Hd; [rewrite K in Hd; inversion Hd; left; reflexivity|right; eapply H; eauto].
-      * exists found, (snd (walk fuel fs p) ++ ds). rewrite <- app_assoc. split; [reflexivity|]. intros q d [<-|Hq] Hd; [rewrite K in Hd; discriminate|apply in_app_iff; right; eapply H; eauto].
+      * exists found, (snd (walk fuel [] fs p) ++ ds). rewrite <- app_assoc. split; [reflexivity|]. intros q d [<-|Hq] Hd; [rewrite K in Hd; discriminate|apply in_app_iff; right; eapply H; eauto].
 Qed.
 Lemma canon_pass fs source found : forall acc ds, exists fps ds',
   fold_left (fun acc p => match canon_of fs p with
@@ -189,4 +189,36 @@ Proof.
   destruct (existsb _ seen).
   - constructor; [exists x; split; [left; reflexivity|reflexivity]|]. eapply Forall_impl; [|apply IH]. intros d (y & Hy & ->). exists y. split; [right; exact Hy|reflexivity].
   - eapply Forall_impl; [|apply IH]. intros d (y & Hy & ->). exists y. split; [right; exact Hy|reflexivity].
+Qed.
+
+(* ------------------------------------------------------------------------------------------------ the walk ends, loops or not *)
+(* every identity the file system knows; a directory being searched has one of them *)
+Definition known_ids (fs : fsys) : list nat := nodup Nat.eq_dec (map snd (fs_canon fs)).
+Lemma assoc_in {A} (l : list (path * A)) p v : assoc l p = Some v -> In v (map snd l).
+Proof. induction l as [|[k x] r IH]; cbn [assoc]; [discriminate|]. destruct (cstr_eqb k p); [intros E; inversion E; left; reflexivity|intros H; right; exact (IH H)]. Qed.
+Lemma fold_walk_ext (f g : path -> list path * list fdiag) cs : (forall c, In c cs -> f c = g c) -> forall acc,
+  fold_left (fun acc c => let r := f c in (fst acc ++ fst r, snd acc ++ snd r)) cs acc = fold_left (fun acc c => let r := g c in (fst acc ++ fst r, snd acc ++ snd r)) cs acc.
+Proof.
+  induction cs as [|c r IH]; intros H acc; cbn [fold_left]; [reflexivity|]. rewrite (H c (or_introl eq_refl)). apply IH. intros x Hx. apply H. right. exact Hx.
+Qed.
+(* whatever the links: with more fuel than there are identities not yet on the path, the result does not depend on the fuel *)
+Theorem walk_fuel_independent fs : forall f1 f2 anc p, NoDup anc -> incl anc (known_ids fs) ->
+  length (known_ids fs) - length anc < f1 -> length (known_ids fs) - length anc < f2 -> walk f1 anc fs p = walk f2 anc fs p.
+Proof.
+  induction f1 as [|f1 IH]; intros f2 anc p Hn Hi H1 H2; [lia|]. destruct f2 as [|f2]; [lia|]. cbn [walk].
+  destruct (kind_of fs p); try reflexivity. destruct (canon_of fs p) as [id|] eqn:C; [|reflexivity].
+  destruct (existsb (Nat.eqb id) anc) eqn:E; [reflexivity|]. destruct (children_of fs p) as [cs|]; [|reflexivity].
+  assert (Nin : ~ In id anc) by (intros X; assert (existsb (Nat.eqb id) anc = true) by (apply existsb_exists; exists id; split; [exact X|apply Nat.eqb_refl]); congruence).
+  assert (Kid : In id (known_ids fs)) by (unfold known_ids; apply nodup_In; unfold canon_of in C; exact (assoc_in _ _ _ C)).
+  assert (Hn' : NoDup (id :: anc)) by (constructor; assumption).
+  assert (Hi' : incl (id :: anc) (known_ids fs)) by (intros x [<-|Hx]; [exact Kid|exact (Hi x Hx)]).
+  pose proof (NoDup_incl_length Hn' Hi') as L. cbn [length] in L.
+  apply fold_walk_ext. intros c _. apply IH; try assumption; cbn [length]; lia.
+Qed.
+Corollary walk_terminates fs k p : walk (S (length (known_ids fs)) + k) [] fs p = walk (S (length (known_ids fs))) [] fs p.
+Proof. apply walk_fuel_independent; [constructor|intros x []|cbn; lia|cbn; lia]. Qed.
+(* a directory reached again from within itself contributes nothing: no file is found twice through a loop *)
+Lemma walk_skips_ancestor fs fuel anc p id : kind_of fs p = KDir -> canon_of fs p = Some id -> In id anc -> walk (S fuel) anc fs p = ([], []).
+Proof.
+  intros K C H. cbn [walk]. rewrite K, C. assert (E : existsb (Nat.eqb id) anc = true) by (apply existsb_exists; exists id; split; [exact H|apply Nat.eqb_refl]). rewrite E. reflexivity.
 Qed.
